@@ -214,7 +214,22 @@ func corruptions(p string, out map[string]bool) {
 		out[join(s)] = true
 		if segs[i].Sigil == '#' {
 			n, _ := strconv.Atoi(segs[i].Body)
-			for _, alt := range []string{strconv.Itoa(n + 1), strconv.Itoa(n + 2), strconv.Itoa(n + 7), "-1", "x", "1x"} {
+			big := func(k string) string { // n + k where k is 2^63, 2^64, 2^65 (decimal strings)
+				a := []byte(k)
+				carry := n
+				for i := len(a) - 1; i >= 0 && carry > 0; i-- {
+					d := int(a[i]-'0') + carry%10
+					carry /= 10
+					if d >= 10 {
+						d -= 10
+						carry++
+					}
+					a[i] = byte('0' + d)
+				}
+				return string(a)
+			}
+			for _, alt := range []string{strconv.Itoa(n + 1), strconv.Itoa(n + 2), strconv.Itoa(n + 7), "-1", "x", "1x",
+				big("9223372036854775808"), big("18446744073709551616"), big("36893488147419103232"), big("4294967296"), "99999999999999999999"} {
 				s = cp()
 				s[i].Body = alt
 				out[join(s)] = true
@@ -278,7 +293,7 @@ func runC10(c *ev.Ctx) {
 	}
 	p3 := pathAlphabet(k)
 	pDeep := pathAlphabet(kDeep)
-	c.Rule(fmt.Sprintf("trees = every list/object-rooted tree with <= %d nodes, depth <= 3 over leaves {nil,1,\"s\"} and keys {a,b,0,1} (numeric-looking keys make a '.'/'#' mix-up visible), and every tree with <= 4 nodes over the multi-byte / multi-character / empty keys {U+00E9, ab, \"\"} with the matching path alphabet (a path cannot address the empty key: every path with an empty segment must stay Undefined); paths per tree = every resolvable path, every one-step corruption of each (segment dropped, sigil swapped, body emptied, index shifted to n/n+1/n+6/-1/non-numeric, key misspelt, leading sigil dropped, trailing sigil, segment appended) and all %d strings of <= %d segments over {.,#} x {a,b,0,1,2,10,x,empty} with and without the leading sigil; additionally all %d strings of <= %d segments on every tree with <= %d nodes. Oracle: harness tokenizer + step-by-step navigation with Get/KeyExists/Count only. Non-trivial = distinct (tree, path) pair whose path has >= 2 segments and resolves, or is a one-step corruption of a resolvable path.", nodes, len(p3), k, len(pDeep), kDeep, nodesDeep))
+	c.Rule(fmt.Sprintf("trees = every list/object-rooted tree with <= %d nodes, depth <= 3 over leaves {nil,1,\"s\"} and keys {a,b,0,1} (numeric-looking keys make a '.'/'#' mix-up visible), and every tree with <= 4 nodes over the multi-byte / multi-character / empty keys {U+00E9, ab, \"\"} with the matching path alphabet (a path cannot address the empty key: every path with an empty segment must stay Undefined); paths per tree = every resolvable path, every one-step corruption of each (segment dropped, sigil swapped, body emptied, index shifted to n+1/n+2/n+7/-1/non-numeric/n+2^32/n+2^63/n+2^64/n+2^65, key misspelt, leading sigil dropped, trailing sigil, segment appended) and all %d strings of <= %d segments over {.,#} x {a,b,0,1,2,10,x,empty} with and without the leading sigil; additionally all %d strings of <= %d segments on every tree with <= %d nodes. Oracle: harness tokenizer + step-by-step navigation with Get/KeyExists/Count only. Non-trivial = distinct (tree, path) pair whose path has >= 2 segments and resolves, or is a one-step corruption of a resolvable path.", nodes, len(p3), k, len(pDeep), kDeep, nodesDeep))
 	c.Assume("tree keys are free of '.' and '#'; index spellings with sign, leading zeros, hex or underscores are outside the path grammar of the statement and not generated (except -1 and non-numeric bodies, which must be Undefined)")
 	stop := func() bool { return c.Expired() || c.TooMany() }
 	en := spec.NewEnum(c10Leaves, c10Keys)
